@@ -94,6 +94,22 @@ CHECKS = {
              "behind a waiting writer) is exercised, not specified",
         technique="Lean 4 inductive invariant over an acceptor of hook/API event traces + deterministic simulation of the real runtime",
         design="§5 C06"),
+    "C09": dict(
+        text="Lean 4 theorems about a specification automaton for photon::channel that every single-vCPU history of API calls and returns "
+             "must be accepted by (a bounded FIFO for capacity > 0, a rendezvous for capacity 0): for every accepted history of a buffered "
+             "channel the values received so far followed by the buffer are exactly the values whose send returned true, in order (each "
+             "received exactly once, in sending order, nothing else received, never more than capacity buffered); for an unbuffered channel no "
+             "value is received twice and every value reported sent has been received (or sits in the hand-off slot after a try_send); a send "
+             "returns false only after close() or its timeout; a quiescence point is accepted only if no sender/receiver is blocked while a "
+             "partner, free slot or item exists. The tie to the code: generated programs run on the real channel<int> on a virtual clock, every "
+             "call/return with its value fed to the automaton; an independent multiset/order oracle supplies failing programs. Two genuine "
+             "defects of the unbuffered channel are recorded as known findings (F2, F14) with a Lean witness theorem for F2",
+        note="trusted: Lean kernel + 3 standard axioms; single vCPU only: operations take effect atomically right before they return, which "
+             "is what makes the automaton a sound oracle; the buffered channel's cross-vCPU lost wake-up (waiter count registered after the "
+             "failed push, design note F3) needs the multi-vCPU harness and is NOT covered; the lock-free ring under the buffered channel is "
+             "C07's subject; tags handed to send are distinct; select() is not covered",
+        technique="Lean 4 invariants over a specification automaton (refinement at API level) + deterministic simulation of the real runtime",
+        design="§5 C09"),
     "C14": dict(
         text="Lean 4 theorems, for every vector shape (any number of elements, zero-length elements anywhere), every byte count and "
              "every destination shape, that each modelled operation equals its effect on the flat address sequence: sum, shrink_to, "
